@@ -168,11 +168,20 @@ class Store(object):
         return [n for n in sorted(self.objs) if self.kinds[n] == kind and (pred is None or pred(n))]
 
 
-def lm_from_rows(rows, numpy_keys=False):
+def lm_from_rows(rows, numpy_keys=False, order_seed=None):
+    """Latter map of a graph. order_seed: successor lists (and key insertion order) in a seeded non-ascending order -
+    a latter map is a user-supplied dict of lists, nothing says its lists are sorted."""
+    import random as _random
     lm = {}
-    for v in range(len(rows)):
+    vertices = list(range(len(rows)))
+    rng = _random.Random(order_seed) if order_seed is not None else None
+    if rng is not None:
+        rng.shuffle(vertices)
+    for v in vertices:
         succ = [w for w in rows[v] if w >= 0]
         if succ:
+            if rng is not None:
+                rng.shuffle(succ)
             lm[numpy.int64(v) if numpy_keys else v] = succ
     return lm
 
@@ -187,9 +196,9 @@ def adj_from_rows(rows):
     return a
 
 
-def put_graph(store, name, k, rows, with_adj=True):
+def put_graph(store, name, k, rows, with_adj=True, order_seed=None):
     store.put(name + ".acc", "acc", numpy.array(rows, dtype=int), k=k, graph=name)
-    store.put(name + ".lm", "lm", lm_from_rows(rows), k=k, graph=name)
+    store.put(name + ".lm", "lm", lm_from_rows(rows, order_seed=order_seed), k=k, graph=name)
     if with_adj and k <= 3:
         store.put(name + ".adj", "adj", adj_from_rows(rows), k=k, graph=name)
 
@@ -310,7 +319,7 @@ def op_new(op, world, ctx):
     store, kind, name = world.store, op["kind"], op["name"]
     if kind == "graph":
         rows = G.arcs_to_rows(op["arcs"], op["k"])
-        put_graph(store, name, op["k"], rows)
+        put_graph(store, name, op["k"], rows, order_seed=op.get("lm_order"))
     elif kind == "mask":
         arr = numpy.array([c == "1" for c in op["bits"]], dtype=bool)
         store.put(name, "mask", arr.astype(int) if op.get("dtype") == "int" else arr, k=op["k"])
@@ -334,8 +343,8 @@ def op_new(op, world, ctx):
         k = store.meta[src + ".acc"]["k"]
         rows = acc.tolist()
         store.put(name + ".acc", "acc", numpy.array(rows, dtype=int), k=k, graph=name, pair=name)
-        store.put(name + ".lm", "lm", lm_from_rows(rows, numpy_keys=op.get("numpy_keys", False)), k=k, graph=name,
-                  pair=name)
+        store.put(name + ".lm", "lm", lm_from_rows(rows, numpy_keys=op.get("numpy_keys", False),
+                                                   order_seed=op.get("lm_order")), k=k, graph=name, pair=name)
         world.pairs[name] = {"arcs": set(M.arcs(rows)), "k": k, "removed": 0, "dead": False}
     else:
         raise HarnessError("NEW kind %r" % kind)
@@ -436,6 +445,7 @@ def op_call(op, world, ctx):
         or (fn_name == "create_random_shuffles" and kwargs.get("random_seed") is None)
     want_reference = ctx.fresh and not randomised and (
         ctx.prop == "C20" or (ctx.prop == "C18" and fn_name == "create_random_shuffles") or
+        (ctx.prop == "C18" and fn_name in ("encode", "decode") and kwargs.get("shuffles") is not None) or
         (ctx.prop == "C19" and touches_pair and not mutating))
     if want_reference:
         ensure_zygote()
@@ -454,6 +464,8 @@ def op_call(op, world, ctx):
     elif ctx.prop == "C18" and fn_name == "create_random_shuffles":
         oracle_c18(op, world, ctx, out, live, reference, changed, cap.text, globals_before, globals_after, det,
                    kwargs, rng_before, rng_after)
+    elif ctx.prop == "C18" and fn_name in ("encode", "decode") and kwargs.get("shuffles") is not None:
+        oracle_c18_walks(op, world, ctx, out, live, reference, det, kwargs)
     elif ctx.prop == "C19":
         if mutating:
             oracle_c19(op, world, ctx, out, pre, kwargs, pair_name, det)
@@ -495,12 +507,13 @@ def oracle_c20(op, world, ctx, out, live, reference, changed, exempt, stdout, g0
         return ctx.fail("argument-modified", "%s modified %s (kind %s) in place" %
                         (fn_name, bad[0], world.store.kinds.get(bad[0])), modified_kind=world.store.kinds.get(bad[0]),
                         is_argument=bad[0] in refs.values(), **det)
+    # Not violations of C20 as stated (a correct cache, or a message printed by a quiet call, leaves every result and
+    # argument as promised): reach probes only. Harm done by hidden state shows up as a result that differs from the
+    # fresh process.
     if g0 != g1:
-        return ctx.fail("module-state-changed", "%s changed state hanging off the dsw modules (a global, a default "
-                        "argument, a function attribute or a cache)" % fn_name, **det)
+        st.inc("probes", "c20:module-state-changed")
     if not det["verbose"] and stdout:
-        return ctx.fail("quiet-call-prints", "%s printed %d characters with progress output off" %
-                        (fn_name, len(stdout)), **det)
+        st.inc("probes", "c20:quiet-call-printed")
     if reference is not None:
         ref = reference["norm"]
         if ref[:2] != live[:2]:
@@ -575,6 +588,66 @@ def oracle_c18(op, world, ctx, out, live, reference, changed, stdout, g0, g1, de
     if not det["verbose"] and stdout:
         return ctx.fail("no-other-effect", "create_random_shuffles printed with progress output off", **det)
     st.states.add("k%d/%s/%s/%s" % (k, seed_class, "after-" + str(det["prev_fn"]), "verbose" if det["verbose"] else "quiet"))
+
+
+def _is_permutation_table(table, k):
+    try:
+        rows = numpy.asarray(table).tolist()
+        return len(rows) == 4 ** k and all(sorted(r) == [0, 1, 2, 3] for r in rows)
+    except Exception:
+        return False
+
+
+def oracle_c18_walks(op, world, ctx, out, live, reference, det, kwargs):
+    """C18, last clause, on the calls of the history that use a table: "shuffling never changes which strands are
+    walks". encode with a permutation table must emit a walk of the graph as it is now; normal-mode decode with a
+    table must accept exactly the walks (whose check matches); and the call must not depend on what happened to the
+    graph object earlier (fresh-process equality), e.g. through arcs removed in place by remove_nasty_arc."""
+    st, fn_name = ctx.stats, op["fn"]
+    acc = kwargs.get("accessor")
+    if not isinstance(acc, numpy.ndarray) or acc.ndim != 2 or acc.shape[1] != 4:
+        return
+    rows = acc.tolist()
+    k = int(round(math.log(len(rows), 4)))
+    start = kwargs.get("start_index", 0)
+    if len(rows) != 4 ** k or not M.check_rows_shape(rows, k) or not _is_permutation_table(kwargs["shuffles"], k) \
+            or not isinstance(start, int) or not 0 <= start < 4 ** k:
+        st.vacuous += 1
+        return
+    det = dict(det, k=k, fast=bool(kwargs.get("is_faster")))
+    if fn_name == "encode":
+        if out.kind != "returned":
+            st.vacuous += 1
+        else:
+            st.nonvacuous += 1
+            value = out.value
+            strand = value[0] if isinstance(value, tuple) else value
+            if isinstance(strand, str):
+                wk = M.walk(rows, start, strand)
+                st.inc("probes", "c18:encode-with-table")
+                if not wk.is_walk:
+                    return ctx.fail("shuffles-keep-walks", "encode with a permutation table emitted %r, which is not a "
+                                    "walk of the graph (first non-arc at %d)" % (strand[:40], wk.first_bad), **det)
+    else:
+        read = kwargs.get("dna_sequence")
+        if not isinstance(read, str) or kwargs.get("is_faster"):
+            st.vacuous += 1
+        else:
+            st.nonvacuous += 1
+            wk = M.walk(rows, start, read)
+            check = kwargs.get("vt_check")
+            cok = check is None or (M.is_acgt(read) and len(check) >= 1 and M.vt(read, len(check)) == check)
+            st.inc("probes", "c18:decode-with-table-%s" % ("walk" if wk.is_walk else "nonwalk"))
+            if out.kind == "returned" and not (wk.is_walk and cok):
+                return ctx.fail("shuffles-keep-walks", "decode with a permutation table accepted %r, which is not a "
+                                "walk of the graph" % read[:40], **det)
+            if out.kind == "raised" and wk.is_walk and cok:
+                return ctx.fail("shuffles-keep-walks", "decode with a permutation table rejected the walk %r: %s: %s"
+                                % (read[:40], out.exc_type, out.exc_msg), **det)
+    if reference is not None and reference["norm"][:2] != live[:2]:
+        return ctx.fail("shuffles-keep-walks", "%s with a table returned %s here but %s in a fresh process on equal "
+                        "arguments" % (fn_name, live[2] or live[1], reference["norm"][2] or reference["norm"][1]),
+                        **det)
 
 
 def op_digitmap(op, world, ctx):
@@ -701,8 +774,7 @@ def oracle_c19(op, world, ctx, out, pre, kwargs, pair_name, det):
     except Exception:
         named = None
     if named != (v, successor):
-        return ctx.fail("returned-arc-names-it", "returned arc %r but the removed arc is (%d, %d)" %
-                        (arc, v, successor), **det)
+        st.inc("probes", "c19:returned-arc-does-not-name-it")   # the statement is about the pair, not this tuple
     ties = None
     if scores is not None:
         top = int(scores.max())
@@ -710,6 +782,22 @@ def oracle_c19(op, world, ctx, out, pre, kwargs, pair_name, det):
             return ctx.fail("maximum-score", "removed arc (%d -> %d) has score %d, the maximum before the call was %d"
                             % (v, successor, int(scores[v, j]), top), **det)
         ties = int((scores == top).sum())
+    # the same clause against the simulator's own model of the intersection score (the library's scoring function is
+    # not trusted to define it: a slip inside it would move the "maximum" along with the removal)
+    model_scores = M.intersection_scores(model["arcs"], k, kwargs.get("has_insertion", True),
+                                         kwargs.get("has_deletion", True))
+    model_top = max(model_scores.values()) if model_scores else 0
+    mine = model_scores.get((v, j), 0)
+    if mine != model_top:
+        best = sorted(a for a, sc in model_scores.items() if sc == model_top)[0]
+        return ctx.fail("maximum-score", "removed arc (%d -> %d) has intersection score %d by the reference model, but "
+                        "arc %r scores %d" % (v, successor, mine, best, model_top), by="model", **det)
+    if scores is not None:
+        lib = {(int(a), int(b)): int(scores[a, b]) for a, b in zip(*numpy.nonzero(scores))}
+        if lib != {a: sc for a, sc in model_scores.items() if sc}:
+            st.inc("probes", "c19:library-scores-differ-from-model")
+        else:
+            st.inc("probes", "c19:library-scores-equal-model")
     out_degree_before = sum(1 for jj in range(4) if (v, jj) in model["arcs"])
     model["arcs"].discard((v, j))
     model["removed"] += 1
@@ -726,7 +814,8 @@ def oracle_c19(op, world, ctx, out, pre, kwargs, pair_name, det):
             got_lm[int(key)] = [int(x) for x in vals]
     except Exception:
         return ctx.fail("views-equal-model", "latter map handed back is malformed", view="latter_map", **det)
-    if got_lm != expect_lm:
+    # the two views must describe the same graph: successor *sets* per vertex (a latter map's lists carry no order)
+    if {u: sorted(vs) for u, vs in got_lm.items()} != {u: sorted(vs) for u, vs in expect_lm.items()}:
         emptied = [u for u in got_lm if not got_lm[u]]
         return ctx.fail("views-equal-model", "latter map handed back differs from the reference arc set%s" %
                         (" (emptied key %d kept)" % emptied[0] if emptied else ""), view="latter_map",
@@ -737,7 +826,9 @@ def oracle_c19(op, world, ctx, out, pre, kwargs, pair_name, det):
         return ctx.fail("passed-in-consistent", "the accessor passed in is in a third state after the call", **det)
     norm_passed = {int(a): [int(x) for x in b] for a, b in passed_lm.items()}
     norm_old = {int(a): [int(x) for x in b] for a, b in pre["lm"].items()}
-    if norm_passed != got_lm and norm_passed != norm_old:
+    def canon(lm):
+        return {u: sorted(vs) for u, vs in lm.items()}
+    if canon(norm_passed) != canon(got_lm) and canon(norm_passed) != canon(norm_old):
         return ctx.fail("passed-in-consistent", "the latter map passed in is in a third state after the call", **det)
     # the sequence continues with the pair handed back
     store.put(pair_name + ".acc", "acc", acc2, k=k, graph=pair_name, pair=pair_name)
